@@ -8,7 +8,9 @@
      C   calling goroutine        mapReduceWithPanicChan:174-254
    Channels: source (unbuffered: a send is a rendezvous with X or with whoever is in drain(source)),
    collector (buffered, cap = workers), output (unbuffered: rendezvous R -> C), done, pool (semaphore,
-   modelled as its token count), panicChan.channel (unbuffered, guarded by the CAS in onceChan.write).
+   modelled as its token count), panicChan.channel (buffered, cap 1 since d413f58, guarded by the CAS in
+   onceChan.write: the single winner's send never blocks; `wrote` = the CAS flag, `fpanic` = the buffered value;
+   the caller's select arm is ready iff the buffer is full, and the caller reads it at most once).
 
    Atomicity choices (each merges adjacent steps no other thread can tell apart):
    * finish's body `close(done); close(output)` (:195-198) is one step, flag `fin`; a sync.Once whose
@@ -17,6 +19,7 @@
      a second caller of a *running* once blocks until the first returns (sync.Once semantics): `conce`.
    * `item, ok := <-source; wg.Add(1); go func()` (:274-281) is one step (rendezvous with G).
    * `wg.Done(); <-pool` (:288-289) is one step; `wg.Wait(); close(collector)` (:259-260) is one step.
+   * the re-check of panicChan in the output arm and the following retErr.Load (1af3580) are one step (COut).
    * select statements pick any ready arm (label says which); `default` only if no arm is ready
      (guardedWriter.Write :370-379).  A send on a closed channel panics (runtime), it is not dropped.
    Scripts: per-item mapper behaviour = list of actions, reducer = how many values to receive, then actions. *)
@@ -47,14 +50,13 @@ Definition err_of (e : option nat) : err := match e with Some n => EUser n | Non
 Inductive cc := CcEnter | CcDrain | CcFin.       (* inside cancel(err): at oc.Do | in drain(source) | before finish() *)
 Inductive once := ONone | ORunning | ODone.
 
-Inductive gpc := GSend (rest : list item) | GPanicCas (p : nat) | GPanicSend (p : nat) | GClose | GDone.
+Inductive gpc := GSend (rest : list item) | GPanicCas (p : nat) | GClose | GDone.
 Inductive xpc := XCheck | XSel | XHold | XWait | XDrain | XDone.
 Inductive wpc :=
 | WRun (acts : list mact)
 | WSend (v : val) (acts : list mact)              (* passed the guard, in `w.channel <- v` :377 *)
 | WCancel (k : cc) (e : err) (acts : list mact)
-| WRecover (p : pval)                             (* :283-285 *)
-| WPSend (p : pval)                               (* in `c.channel <- v` :352 *)
+| WRecover (p : pval)                             (* :283-285, incl. panicChan.write :350-354 *)
 | WFin                                            (* :288-289 *)
 | WExit.
 Inductive rpc :=
@@ -62,11 +64,13 @@ Inductive rpc :=
 | RRun (acts : list ract)
 | RSend (k : nat) (acts : list ract)              (* passed the guard, in `output <- v` *)
 | RDrain (p : option pval)                        (* deferred drain(collector) :214 *)
-| RPanicCas (p : pval) | RPSend (p : pval)        (* :215-217 *)
+| RPanicCas (p : pval)                            (* :215-217 *)
 | RFinish | RDone.                                (* :218 *)
 Inductive outcome := ORet (k : nat) | OErr (e : err) | ONoOutput | OPanic (p : pval) | OPanicTwice.
 Inductive cpc :=
-| CSelect                                         (* :237 *)
+| CSelect                                         (* the select *)
+| COut (got : option nat)                         (* `case v, ok := <-output` taken (Some v / closed), before the
+                                                     non-blocking re-check of panicChan added by 1af3580 *)
 | CCancel (k : cc)                                (* :239 *)
 | CDrainOut (p : pval)                            (* :243 *)
 | CDefer (o : outcome)                            (* :179-184 deferred `for range output` *)
@@ -147,9 +151,9 @@ Fixpoint upd_nth {A} (i : nat) (a : A) (l : list A) : list A :=
   end.
 Definition set_w (i : nat) (x : item) (p : wpc) (s : state) : state := set_ws (upd_nth i (x, p) (ws s)) s.
 
-(* onceChan.write :350-354: CAS; the winner then blocks in the send until the caller's select takes it *)
-Definition cas_panic (p : pval) (s : state) : option state :=
-  if wrote s then None else Some (set_wrote true (set_fpanic (Some p) s)).
+(* onceChan.write :350-354: CAS; the winner puts v into the one-slot buffer (never blocks), losers do nothing *)
+Definition cas_panic (p : pval) (s : state) : state :=
+  if wrote s then s else set_wrote true (set_fpanic (Some p) s).
 
 (* the once around cancel :304-311 with body :200-209, entered by a thread carrying error e *)
 (* `ccalls` (ghost) lists the errors of the cancel calls in the order in which they got through oc.Do, newest first *)
@@ -171,11 +175,7 @@ Definition step_g (cf : cfg) (s : state) : option state :=
   match g s with
   | GSend [] => Some (set_g (match gpanic cf with Some p => GPanicCas p | None => GClose end) s)
   | GSend _ => None
-  | GPanicCas p => match cas_panic (PUser p) s with
-                   | Some s' => Some (set_g (GPanicSend p) s')
-                   | None => Some (set_g GClose s)
-                   end
-  | GPanicSend _ => None
+  | GPanicCas p => Some (set_g GClose (cas_panic (PUser p) s))
   | GClose => Some (set_g GDone (set_srcc true s))
   | GDone => None
   end.
@@ -248,13 +248,7 @@ Definition step_w (cf : cfg) (i : nat) (s : state) : option state :=
           end
       | WCancel CcDrain e a => if srcc s then Some (set_w i it (WCancel CcFin e a) s) else None
       | WCancel CcFin e a => Some (set_w i it (WRun a) (cancel_fin s))
-      | WRecover p =>
-          let s1 := set_failed true s in
-          match cas_panic p s1 with
-          | Some s' => Some (set_w i it (WPSend p) s')
-          | None => Some (set_w i it WFin s1)
-          end
-      | WPSend _ => None
+      | WRecover p => Some (set_w i it WFin (cas_panic p (set_failed true s)))
       | WFin => Some (set_w i it WExit (set_pool (pool s - 1) s))
       | WExit => None
       end
@@ -285,11 +279,7 @@ Definition step_r (s : state) : option state :=
       | v :: rest => Some (set_coll rest (set_cdrained (v :: cdrained s) s))
       | [] => if collc s then Some (set_r (match p with None => RFinish | Some p => RPanicCas p end) s) else None
       end
-  | RPanicCas p => match cas_panic p s with
-                   | Some s' => Some (set_r (RPSend p) s')
-                   | None => Some (set_r RFinish s)
-                   end
-  | RPSend _ => None
+  | RPanicCas p => Some (set_r RFinish (cas_panic p s))
   | RFinish => Some (set_r RDone (set_fin true s))
   | RDone => None
   end.
@@ -304,33 +294,19 @@ Definition step_cctx (s : state) : option state :=
   | _ => None
   end.
 
-(* the (unique, by the CAS) thread blocked in panicChan.channel <- p hands p over and goes on *)
-Fixpoint find_psend (l : list (item * wpc)) (i : nat) : option (nat * item * pval) :=
-  match l with
-  | [] => None
-  | (it, WPSend p) :: _ => Some (i, it, p)
-  | _ :: t => find_psend t (S i)
-  end.
+(* case v := <-panicChan.channel :241: ready iff the buffer holds the winner's value *)
 Definition step_cpanic (s : state) : option state :=
   match c s with
-  | CSelect =>
-      match g s, r s with
-      | GPanicSend p, _ => Some (set_c (CDrainOut (PUser p)) (set_g GClose s))
-      | _, RPSend p => Some (set_c (CDrainOut p) (set_r RFinish s))
-      | _, _ => match find_psend (ws s) 0 with
-                | Some (i, it, p) => Some (set_c (CDrainOut p) (set_w i it WFin s))
-                | None => None
-                end
-      end
+  | CSelect => if wrote s then match fpanic s with Some p => Some (set_c (CDrainOut p) s) | None => None end else None
   | _ => None
   end.
 
 Definition step_cout (s : state) : option state :=
   match c s with
   | CSelect =>
-      if fin s then Some (set_c (CDefer (load_outcome s ONoOutput)) s)
+      if fin s then Some (set_c (COut None) s)
       else match r s with
-           | RSend k a => Some (set_c (CDefer (load_outcome s (ORet k))) (set_r (RRun a) s))
+           | RSend k a => Some (set_c (COut (Some k)) (set_r (RRun a) s))
            | _ => None
            end
   | _ => None
@@ -339,6 +315,9 @@ Definition step_cout (s : state) : option state :=
 Definition step_c (s : state) : option state :=
   match c s with
   | CSelect => None
+  | COut got =>        (* select { case p := <-panicChan.channel: drain(output); panic(p); default: } then retErr.Load *)
+      if wrote s then match fpanic s with Some p => Some (set_c (CDrainOut p) s) | None => None end
+      else Some (set_c (CDefer (load_outcome s (match got with Some k => ORet k | None => ONoOutput end))) s)
   | CCancel CcEnter =>
       match cancel_enter EDeadline s with
       | EnterRun s' => Some (set_c (CCancel CcDrain) s')
